@@ -92,6 +92,28 @@ CHECKS = {
         },
         "assumptions": COMMON_ASSUME,
     },
+    "C06": {
+        "bin": "c06",
+        "quick": cfgs(["p2", "rdx"]),
+        "thorough": cfgs(["p2", "rdx", "cmprdxfmt"]),
+        "rule": "float value families BD (every binade border +-1, extremes), BIN (every binade x mantissa patterns), zero, 1-in-37 negated; x radix "
+                "{2,4,8,16,32} and 15 mixed-base formats (4/2, 8/2, 16/2, 32/2, 16/4 x exponent-digit radix) x notation {default breaks, breaks -1/+1 "
+                "(exponent for nearly all), breaks -1100/+1100 (never exponent)}; output parsed by the reference grammar, its exact rational value must "
+                "EQUAL the float, and lexical's parser in the same format must return identical bits; non-trivial = outputs in exponent notation",
+        "bounds": {"quick": "BIN level 1 (~115 patterns x every binade)", "thorough": "BIN level 2 (~330 patterns x every binade)"},
+        "assumptions": COMMON_ASSUME,
+    },
+    "C07": {
+        "bin": "c06",
+        "quick": cfgs(["rdx"], args=["--c07"]),
+        "thorough": cfgs(["rdx", "cmprdxfmt"], args=["--c07"]),
+        "rule": "as C06 for the 29 generic radices, plus integers 1..2^12 (2^16 thorough), r^k-1, r^k, r^k+1 below 2^53/2^24, floats just below a power of "
+                "the radix (carry back-trace), negative powers of the radix +-4 ulp; output must be a well-formed numeral of the radix (reference grammar), "
+                "be accepted by lexical's parser in the same format, lie within 2048 (f64) / 256 (f32) ulp of the float by exact arithmetic, and be exact "
+                "for integers; non-trivial = outputs in exponent notation",
+        "bounds": {"quick": "BIN level 1; integers < 2^12", "thorough": "BIN level 2; integers < 2^16"},
+        "assumptions": COMMON_ASSUME + ["a zero output for subnormals below 2048/256 ulp is accepted: the statement only bounds the distance"],
+    },
 }
 
 # properties not claimed (reason). Kept current by hand.
